@@ -504,7 +504,9 @@ def r9(run):
                 elif oks and q.dominated(b, c.bb, via_edges=oks):
                     run.ob("%s|%s|success-status" % (run.facts.enclosing_fn(b), cond[1].fn.split("::")[-1]), 200 <= st < 300, c.sp,
                            "a successful %s is answered with a 2xx status (%d)" % (cond[1].fn.split("::")[-1], st), reason="wrong-status-code")
-    run.floor("handlers matching on a store result", n, 1)
+    if n == 0:
+        run.note("no api handler matches on a store result itself (all failures go through `?` to the 500 mapping of api::handle)")
+        run.ob("xs::api|store-failures|mapped", True, "<api>", "store failures reach the client only through the error mapping of api::handle (R-C13-1)")
     # GET /cas/<hash>: only a NotFound I/O error is a 404, every other failure a 500
     hb = handle_body(run)
     if hb is not None:
@@ -556,14 +558,20 @@ def r10(run):
         run.missing("xs::api::handle_head_get|body", "handle_head_get not found")
         return
     from . import C06 as c06
-    sw = [(bb, si) for bb, si in hb.switches() if si["kind"] == "bool" and (q.last_field(si["cond"]) == "follow" or fmt(strip(si["cond"])).endswith("follow"))]
+    sw = []
+    for bb, si in hb.switches():
+        if si["kind"] != "bool":
+            continue
+        atom, pol = q.bool_atom(si["cond"])
+        if q.last_field(atom) == "follow" or fmt(atom).endswith("follow"):
+            sw.append((bb, si, pol))
     run.exact("tests of the follow flag in handle_head_get", len(sw), 1, hb.sp)
     reads = q.live_calls(hb, C.READ)
     run.exact("Store::read calls in handle_head_get", len(reads), 1, hb.sp)
     if not sw or not reads:
         return
-    bb, si = sw[0]
-    te, fe = q.edge_triples(hb, bb, lambda m: m is True), q.edge_triples(hb, bb, lambda m: m is False)
+    bb, si, pol = sw[0]
+    te, fe = q.edge_triples(hb, bb, lambda m: m is pol), q.edge_triples(hb, bb, lambda m: m is (not pol))
     rd = reads[0]
     one = q.live_calls(hb, "xs::api::response_frame_or_404")
     run.ob("xs::api::handle_head_get|follow-polarity", q.dominated(hb, rd.bb, via_edges=te) and bool(one) and all(q.dominated(hb, c.bb, via_edges=fe) for c in one), rd.sp,
